@@ -14,9 +14,12 @@ import (
 	"sync"
 	"time"
 
+	"github.com/lab5e/lospan/pkg/apiserver"
 	"github.com/lab5e/lospan/pkg/band"
 	"github.com/lab5e/lospan/pkg/events/gwevents"
+	"github.com/lab5e/lospan/pkg/keys"
 	"github.com/lab5e/lospan/pkg/model"
+	"github.com/lab5e/lospan/pkg/pb/lospan"
 	"github.com/lab5e/lospan/pkg/processor"
 	"github.com/lab5e/lospan/pkg/protocol"
 	"github.com/lab5e/lospan/pkg/server"
@@ -64,6 +67,28 @@ type World struct {
 	curThread int
 	epoch     int
 	myEpoch   int
+	api       lospan.LospanServer // the service object on this world's storage (operator requests), made on first use
+	apiEpoch  int
+}
+
+// the service object an operator talks to, on the storage this server uses
+func (w *World) service() lospan.LospanServer {
+	if w.api == nil || w.apiEpoch != w.epoch {
+		ma, _ := protocol.NewMA([]byte{0xA5, 0x5A, 0x3C})
+		kg, err := keys.NewEUIKeyGenerator(ma, 0x1234, w.store)
+		if err != nil {
+			fmt.Fprintln(os.Stderr, "keygen:", err)
+			os.Exit(3)
+		}
+		router := server.NewEventRouter[protocol.EUI, *server.PayloadMessage](2)
+		api, err := apiserver.New(w.store, &kg, &router)
+		if err != nil {
+			fmt.Fprintln(os.Stderr, "apiserver:", err)
+			os.Exit(3)
+		}
+		w.api, w.apiEpoch = api, w.epoch
+	}
+	return w.api
 }
 
 type parkedG struct {
